@@ -69,6 +69,14 @@ def scope_cases(ctx):
         members = [{"type": "object", "title": t, "properties": {"p%d" % i: {"type": "string"}}} for i, t in enumerate(labels)]
         for kw in ("oneOf", "anyOf"):
             out.append({"op": "naming.scopes", "in": {"kind": "union-labels", "spec": spec_with({"Root": {kw: members}}), "cfg": {"all_schemas": True}, "mode": "client-mod", "expect_variants": {"Root": len(labels)}}})
+    # union members WITHOUT a title: the label is inferred from the only (required) property's name, which need not be an
+    # identifier (`@type`, `$id`, `1x`; finding F09-10, repaired)
+    # (names that sanitise to `_` are the listed F09-3 and stay out)
+    for props in (["@type", "$id", "1x"], ["a-b", "x y", "ok_name"], ["@type", "type", "Type"], ["1", "2", "3x"], ["@id", "@ID", "id"]):
+        members = [{"type": "object", "properties": {p: {"type": "string"}}} for p in props]
+        req_members = [{"type": "object", "required": [p], "properties": {p: {"type": "string"}, "zz": {"type": "integer"}}} for p in props]
+        for kw, ms in (("oneOf", members), ("anyOf", members), ("oneOf", req_members)):
+            out.append({"op": "naming.scopes", "in": {"kind": "union-labels", "spec": spec_with({"Root": {kw: ms}}), "cfg": {"all_schemas": True}, "mode": "client-mod", "expect_variants": {"Root": len(props)}}})
     # variants of a discriminated base are named after its children with the base's name stripped, plus a fall-back variant
     # named after the base's last word: `BillingEvent` + child `Event`; `Pet` + children `Cat`, `PetCat`
     R = "#/components/schemas/"
